@@ -13,16 +13,16 @@ CIF = "sklearn.utils.validation.check_is_fitted"
 
 
 def check(ctx):
-    r201_metricframe(ctx)
-    r202_process_features(ctx)
-    r203_duplicates(ctx)
-    r204_validator(ctx)
-    r208_callers(ctx)
-    r209_threshold_optimizer(ctx)
-    r2010_degenerate(ctx)
-    r2011_regions(ctx)
-    r2014_fitted_checks(ctx)
-    r2015_correlation_remover(ctx)
+    ctx.guard(r201_metricframe, ctx)
+    ctx.guard(r202_process_features, ctx)
+    ctx.guard(r203_duplicates, ctx)
+    ctx.guard(r204_validator, ctx)
+    ctx.guard(r208_callers, ctx)
+    ctx.guard(r209_threshold_optimizer, ctx)
+    ctx.guard(r2010_degenerate, ctx)
+    ctx.guard(r2011_regions, ctx)
+    ctx.guard(r2014_fitted_checks, ctx)
+    ctx.guard(r2015_correlation_remover, ctx)
 
 
 def _is_ccl(e, a, b):
